@@ -735,8 +735,7 @@ class Interp:
             goals = list(inv.inv(self, fr, i + 1, it))
             for f in inv.step_lemmas(self, fr, i, it):
                 ctx.fact(f, lemma=True)
-            for nm, g in goals:
-                ctx.oblige('loop%d.step.%s' % (inv.ordinal, nm), g, kind='invariant')
+            ctx.oblige_seq(goals, 'loop%d.step' % inv.ordinal, kind='invariant')
             raise Abort()
         else:
             inv.havoc(self, fr, n, it)
